@@ -1,4 +1,5 @@
 pub mod fault;
 pub mod grammar;
 pub mod hist;
+pub mod sched;
 pub mod urgency;
